@@ -83,6 +83,7 @@ def lean_ty(t) -> str:
 	if k == 'arr': return 'Py.Arr'
 	if k == 'sigs': return 'Py.Sigs'
 	if k == 'carr': return 'Py.CArr'
+	if k == 'sigsrc': return 'Py.KSpec'
 	if k == 'acc': return 'Py.Acc'
 	if k == 'nd': return 'Py.ND'
 	if k == 'index': return 'Py.Index'
@@ -110,6 +111,7 @@ def default(t) -> str:
 	if k == 'arr': return '(default : Py.Arr)'
 	if k == 'sigs': return '(default : Py.Sigs)'
 	if k == 'carr': return '(default : Py.CArr)'
+	if k == 'sigsrc': return '(default : Py.KSpec)'
 	if k == 'acc': return '(default : Py.Acc)'
 	if k == 'nd': return '(default : Py.ND)'
 	if k == 'index': return '(default : Py.Index)'
@@ -197,6 +199,19 @@ FUNCS = [
 	     calls={'SetAccumulator': ('(Py.Acc.new false {0})', ('acc',), []), 'ArrayAccumulator': ('(Py.Acc.new true {0})', ('acc',), [('(decide ({0} < 0))', 'ValueError')])}),
 	dict(name='calc_signature', file='sigs/calc.py', qual='calc_signature', module='PyCalcSig', env=[],
 	     params=[('kmerspec', KSPEC), ('seqs', LIST(BYTES)), ('accumulator', OPT(('acc',)))], ret=LIST(INT)),
+	# --- how the command line reconciles k-mer parameters (C14).  kspec_from_params as a whole; of the three command functions the
+	#     fragment that decides which parameters are used (between the named statements), as a function of what it reads: the explicit
+	#     options and the parameters of the signature sources present (a source is represented by its KmerSpec).
+	dict(name='kspec_from_params', file='cli/common.py', qual='kspec_from_params', module='PyParams', env=[('DFLT', 'Py.KSpec')], strings='plain',
+	     params=[('k', OPT(INT)), ('prefix_', OPT(STR)), ('default', BOOL)], ret=OPT(KSPEC), defaults={'default': False}),
+	dict(name='dist_params', file='cli/dist.py', qual='dist_cmd', module='PyParams', env=[('DFLT', 'Py.KSpec')], strings='msg',
+	     fragment=('kspec = common.kspec_from_params(k, prefix)', "prog = 'click' if progress else None", 'kspec'),
+	     params=[('k', OPT(INT)), ('prefix_', OPT(STR)), ('query_sigs', OPT(('sigsrc',))), ('ref_sigs', OPT(('sigsrc',)))], ret=OPT(KSPEC)),
+	dict(name='create_params', file='cli/signatures.py', qual='create', module='PyParams', env=[('DFLT', 'Py.KSpec'), ('DBS', 'Option Py.KSpec')], strings='msg',
+	     fragment=('kspec = common.kspec_from_params(k, prefix)', 'if meta_file is not None', 'kspec'),
+	     params=[('k', OPT(INT)), ('prefix_', OPT(STR)), ('db_params', BOOL)], ret=OPT(KSPEC),
+	     opaque={'ctx.obj': ('()', ('obj',)), 'ctx.obj.signatures.kmerspec': ('(DBS.getD default)', KSPEC, [('DBS.isNone', 'Other')])},
+	     methods={('obj', 'require_signatures'): ('()', ('obj',), [('DBS.isNone', 'Other')], [])}),
 	dict(name='strip_extensions', file='cli/common.py', qual='strip_extensions', module='PyLabels', env=[],
 	     params=[('filename', STR), ('extensions', LIST(STR))], ret=STR),
 	dict(name='strip_seq_file_ext', file='cli/common.py', qual='strip_seq_file_ext', module='PyLabels', env=[], params=[('filename', STR)], ret=STR),
@@ -450,6 +465,8 @@ class Fn:
 			return E(f's.{x}', self.vars[x])
 		if x == 'NUCLEOTIDES':
 			return E('Py.NUCLEOTIDES', BYTES)
+		if x == 'DEFAULT_KMERSPEC' and any(n == 'DFLT' for n, _ in self.d['env']):
+			return E('DFLT', KSPEC)
 		if x in self.consts:     # a module-level constant (literal)
 			return self.expr(self.consts[x])
 		raise Untranslatable(f'name {x}')
@@ -467,6 +484,8 @@ class Fn:
 			f = dict(RECORDS[t[1]]['fields'])
 			if a not in f: raise Untranslatable(f'attribute .{a} of {t[1]}')
 			return E(f'{o.lean}.{mangle(a)}', f[a], o.raises)
+		if t == ('sigsrc',) and a == 'kmerspec':
+			return E(o.lean, KSPEC, o.raises)      # a signature source is represented by the parameters it was computed with
 		if t == ('sigs',) and a == 'values':
 			return E(f'(Py.Sigs.values {o.lean})', ('arr',), o.raises)
 		if t == ('arr',) and a == 'dtype':
@@ -596,6 +615,8 @@ class Fn:
 		a, b = self.value(l), self.value(r)
 		if a.ty == NUM and b.ty == NUMINF and isinstance(op, ast.Lt):
 			return E(f'(match {b.lean} with | none => true | some b_ => decide ({a.lean} < b_))', BOOL, a.raises + b.raises)
+		if a.ty == KSPEC and b.ty == KSPEC and isinstance(op, (ast.Eq, ast.NotEq)):
+			return E(f'(decide ({a.lean} = {b.lean}))' if isinstance(op, ast.Eq) else f'(decide ({a.lean} ≠ {b.lean}))', BOOL, a.raises + b.raises)
 		if a.ty == STR and b.ty == STR and isinstance(op, (ast.Eq, ast.NotEq)):
 			return E(f'({a.lean} == {b.lean})' if isinstance(op, ast.Eq) else f'(!({a.lean} == {b.lean}))', BOOL, a.raises + b.raises)
 		if a.ty != b.ty or a.ty not in (INT, NUM, TAXON, GENOME, BOOL, BYTE):
@@ -866,6 +887,16 @@ class Fn:
 				a = self.value(args[0])
 				if a.ty != ('sigs',): raise Untranslatable(f'SignatureList of {a.ty}')
 				return E(f'({{ {a.lean} with kind := 1 }} : Py.Sigs)', ('sigs',), a.raises)
+			if name == 'KmerSpec' and len(args) == 2 and not kw:
+				a, b = self.value(args[0]), self.value(args[1])
+				if a.ty != INT or b.ty != BYTES: raise Untranslatable('KmerSpec argument types')
+				# KmerSpec.__init__: k >= 1, the prefix upper-cased and over ACGT
+				return E(f'({{ k := {a.lean}, pre := GambitV.upper {b.lean} }} : Py.KSpec)', KSPEC,
+				         a.raises + b.raises + [(f'(decide ({a.lean} < 1))', 'ValueError'), (f'(!(Py.validDna (GambitV.upper {b.lean})))', 'ValueError')])
+			if name == 'validate_dna_seq_bytes' and len(args) == 1 and not kw:
+				a = self.value(args[0])
+				if a.ty != BYTES: raise Untranslatable('validate_dna_seq_bytes of ' + str(a.ty))
+				return E('()', ('obj',), a.raises + [(f'(!(Py.validDna {a.lean}))', 'ValueError')])
 			if name == 'float' and len(args) == 1 and isinstance(args[0], ast.Constant) and args[0].value == 'inf':
 				return E('none', NUMINF)
 			if name == 'zip_strict' and len(args) == 2 and not kw:
@@ -1054,6 +1085,9 @@ class Fn:
 				e = E(f'(GambitV.sliceIndices ({nn.lean}).toNat ({o.lean}).1 ({o.lean}).2.1 ({o.lean}).2.2)', TUP(INT, INT, INT),
 				      o.raises + nn.raises + [(f'(({o.lean}).2.2 == some 0)', 'ValueError')])
 				return e
+			if o.ty == STR and m == 'upper' and not args: return E(f'(Py.strUpper {o.lean})', STR, o.raises)
+			if o.ty == STR and m == 'encode' and [ast.unparse(x) for x in args] == ["'ascii'"] and not kw:
+				return E(f'(Py.encodeAscii {o.lean})', BYTES, o.raises + [(f'(!(Py.isAscii {o.lean}))', 'Other')])
 			if o.ty == ('acc',) and m == 'signature' and not args and not kw:
 				return E(f'(Py.Acc.signature {o.lean})', LIST(INT), o.raises)
 			if o.ty == ('arr',) and m == 'view' and len(args) == 1 and not kw:
@@ -1172,7 +1206,7 @@ class Fn:
 			new = E(f'(Py.parallelDists {q.lean} {vals.lean} {bnds.lean} {cur.lean})', ('nd',),
 			        q.raises + vals.raises + bnds.raises + cur.raises + [(f'(!(({q.lean}).dtype.kernelOk && ({vals.lean}).dtype.kernelOk))', 'TypeError')])
 			return self.assign(o.id, new, ind)
-		if isinstance(v, ast.Call) and isinstance(v.func, ast.Attribute) and not (v.func.attr == 'append'):
+		if isinstance(v, ast.Call) and ((isinstance(v.func, ast.Attribute) and not (v.func.attr == 'append')) or (isinstance(v.func, ast.Name) and v.func.id == 'validate_dna_seq_bytes')):
 			try:
 				e = self.expr(v)
 			except Untranslatable:
@@ -1335,6 +1369,9 @@ class Fn:
 		return self.assign(name, e, ind)
 
 	def is_known_call(self, v) -> bool:
+		if isinstance(v, ast.Call) and isinstance(v.func, ast.Attribute) and isinstance(v.func.value, ast.Name) and v.func.value.id == 'common' \
+				and v.func.attr in self.known and v.func.value.id not in self.vars:
+			return True
 		return isinstance(v, ast.Call) and ((isinstance(v.func, ast.Name) and v.func.id in self.known) or self.self_call(v) is not None
 		                                    or self.obj_call(v) is not None)
 
@@ -1357,6 +1394,8 @@ class Fn:
 		return sc
 
 	def call_known(self, v):
+		if isinstance(v.func, ast.Attribute) and isinstance(v.func.value, ast.Name) and v.func.value.id == 'common' and v.func.attr in self.known:
+			v = ast.copy_location(ast.Call(func=ast.Name(id=v.func.attr, ctx=ast.Load()), args=v.args, keywords=v.keywords), v)
 		oc = self.obj_call(v) if isinstance(v.func, ast.Attribute) else None
 		if oc is not None and self.self_call(v) is None:
 			d = self.known[oc[0]]
@@ -1384,6 +1423,8 @@ class Fn:
 		for k in v.keywords:
 			if k.arg not in names or k.arg in given: raise Untranslatable(f'call of {v.func.id} with unexpected argument {k.arg}')
 			given[k.arg] = k.value
+		for n, dv in (d.get('defaults') or {}).items():
+			given.setdefault(n, ast.Constant(value=dv))
 		if len(v.args) > len(names) or set(given) != set(names): raise Untranslatable(f'call of {v.func.id} with unexpected arguments')
 		args = [self.coerce(self.expr(given[n]), t, f'argument of {v.func.id}') for n, t in d['params']]
 		for en in d['env']:
@@ -1731,6 +1772,26 @@ def rename_locals(node: ast.FunctionDef) -> ast.FunctionDef:
 	return ast.fix_missing_locations(R().visit(copy.deepcopy(node)))
 
 
+def fragment_of(node: ast.FunctionDef, d) -> ast.FunctionDef:
+	"""the statements of `node` from the one whose text is d['fragment'][0] up to (excluding) the one whose text starts with d['fragment'][1],
+	as a function of the declared parameters that returns d['fragment'][2]; both delimiters must be found exactly once"""
+	first, stop, result = d['fragment']
+	texts = [ast.unparse(st) for st in node.body]
+	starts = [i for i, t in enumerate(texts) if t == first]
+	stops = [i for i, t in enumerate(texts) if t.startswith(stop)]
+	if len(starts) != 1: raise Untranslatable(f'{d["qual"]}: the statement `{first}` was found {len(starts)} times')
+	stops = [i for i in stops if i > starts[0]]
+	if not stops: raise Untranslatable(f'{d["qual"]}: no statement starting with `{stop}` after `{first}`')
+	body = list(node.body[starts[0]:stops[0]]) + [ast.Return(value=ast.Name(id=result, ctx=ast.Load()))]
+	unmangle = lambda n: n[:-1] if n.endswith('_') and n[:-1] in LEAN_KEYWORDS else n
+	args = ast.arguments(posonlyargs=[], args=[ast.arg(arg=unmangle(n)) for n, _ in d['params']], kwonlyargs=[], kw_defaults=[], defaults=[])
+	fn = ast.FunctionDef(name=node.name, args=args, body=body, decorator_list=[], lineno=node.body[starts[0]].lineno)
+	ast.fix_missing_locations(fn)
+	for x in ast.walk(fn):
+		if not hasattr(x, 'lineno'): x.lineno = fn.lineno
+	return fn
+
+
 def self_attrs_to_names(node: ast.FunctionDef, attrs) -> ast.FunctionDef:
 	"""self.<attr> (for the listed attributes) becomes the local name self_<attr>: the method is read as a function of that state"""
 	import copy
@@ -1792,6 +1853,8 @@ def regenerate(repo: Path, out_dir: Path, stub: set = frozenset()) -> dict:
 				raise Untranslatable(f'definition {d["qual"]} not found in {d["file"]}')
 			if d['name'] in stub:
 				raise Untranslatable('generated definition did not type-check')
+			if d.get('fragment'):
+				node = fragment_of(node, d)
 			want = [a.arg for a in node.args.args + node.args.kwonlyargs if a.arg != 'self']
 			have = [n for n, _ in d['params'] if not n.startswith('self_')]
 			if [mangle(w) for w in want] != have or node.args.vararg or node.args.kwarg:
